@@ -69,6 +69,7 @@ class Run:
         self.results = {}
         self.metas = []
         self.stage = None
+        self.group_of = {}
 
     # -- staging -------------------------------------------------------------------------------
     def do_stage(self):
@@ -146,18 +147,8 @@ class Run:
                     if l.startswith("error"):
                         log("\n".join(lines[i:i + 6]))
                 break
-            # failed harnesses in a -j run have no playback: rerun each alone
-            if jobs > 1:
-                for h in members:
-                    r = res[h.name]
-                    if r.status == "FAILED" and h.expect != "twin" and not r.unwind_failed:
-                        log("[%s] re-running %s alone for a concrete counterexample" % (self.pid, h.name))
-                        res2, meta2 = core.run_kani(self.stage, spec["package"], [self.full_name(h)], unsafe_checks=unsafe,
-                                                    timeout=tmo, mem_gb=None,
-                                                    extra_flags=tuple(spec.get("kani_flags", ())) + ("--exact",), jobs=1,
-                                                    logname="kani-rerun-" + h.name)
-                        if res2[h.name].status == "FAILED":
-                            res[h.name] = res2[h.name]
+            for h in members:
+                self.group_of[h.name] = (unsafe, tmo)
             self.results.update(res)
 
     # -- classification ------------------------------------------------------------------------
@@ -176,8 +167,10 @@ class Run:
                 sig = h.signature or f.get("signature", "")
                 if r.status == "FAILED" and any(re.search(sig, d) for d, _ in r.checks_failed):
                     line = "KNOWN-FINDING: property=%s %s" % (self.pid, f["what"])
-                    self.known.append(line)
-                    log(line)
+                    if line not in self.known:
+                        self.known.append(line)
+                        log(line)
+                    self.notes.append("known finding %s witnessed by %s" % (h.kf, h.name))
                 elif r.status == "SUCCESS":
                     self.notes.append("known finding %s no longer reproduces (witness harness %s passes)" % (h.kf, h.name))
                     log("[%s] note: known finding %s no longer reproduces" % (self.pid, h.kf))
@@ -205,6 +198,18 @@ class Run:
         if not real:
             self.inconclusive.append("%s: unwinding assertion failed — harness bound too small (machinery error)" % h.name)
             return
+        if not [p for p in r.playbacks if p["kind"] != "cover"]:
+            # parallel (-j) runs carry no concrete playback: run this harness alone to get the counterexample
+            unsafe, tmo = self.group_of.get(h.name, (self.spec.get("unsafe_checks", False), 900))
+            log("[%s] re-running %s alone for a concrete counterexample" % (self.pid, h.name))
+            res2, _meta2 = core.run_kani(self.stage, self.spec["package"], [self.full_name(h)], unsafe_checks=unsafe,
+                                         timeout=tmo, extra_flags=tuple(self.spec.get("kani_flags", ())) + ("--exact",),
+                                         jobs=1, logname="kani-rerun-" + h.name)
+            r2 = res2[h.name]
+            if r2.status == "FAILED":
+                r = r2
+                self.results[h.name] = r2
+                real = [(d, l) for d, l in r.checks_failed if "unwinding assertion" not in d] or real
         ok, path, detail = self.replay(h, r)
         if ok:
             self.violations.append((h.name, real[0][0], path))
